@@ -318,6 +318,19 @@ def _ri_contains(m, st, callee, args, t):
     return boolean(compare(st, "Le", x, hi, m.world))
 
 
+@model("core::ops::range::Range::<Idx>::contains")
+def _r_contains(m, st, callee, args, t):
+    # half-open: start <= x < end
+    r = deref(m, st, args[0])
+    x = deref_all(m, st, args[1])
+    if not (isinstance(r, Adt) and len(r.fields) >= 2):
+        raise AnalysisError("contains on %r" % (r,))
+    lo, hi = r.fields[0], r.fields[1]
+    if not compare(st, "Le", lo, x, m.world):
+        return boolean(False)
+    return boolean(compare(st, "Lt", x, hi, m.world))
+
+
 @model("core::iter::range::<impl core::iter::traits::iterator::Iterator for core::ops::range::RangeInclusive<A>>::next")
 def _ri_next(m, st, callee, args, t):
     r = deref(m, st, args[0])
